@@ -5,6 +5,8 @@ NAV = [N + f for f in ('is_doc', 'is_tag', 'is_declaration', 'is_cdata', 'is_pro
                        'is_special_string', 'is_content_string', 'is_xml_tree', 'get_tag_name', 'get_prefix_name', 'get_uri',
                        'has_html_ns', 'is_iframe', 'is_root', 'get_parent', 'get_previous', 'get_next', 'get_previous_tag',
                        'get_next_tag', 'get_contents')]
+ATTRS = [M + f for f in ('match_id', 'match_classes', 'match_attribute_name', 'match_attributes')] + \
+        [N + f for f in ('get_attribute_by_name', 'get_classes', 'iter_attributes')]
 TAGS = [M + f for f in ('supports_namespaces', 'get_tag_ns', 'is_html_tag', 'get_tag', 'get_prefix', 'match_namespace',
                         'match_tagname', 'match_tag')]
 RELS = [M + f for f in ('match_past_relations', 'match_future_child', 'match_future_relations', 'match_relations',
@@ -17,9 +19,9 @@ A_BS4 = 'A-bs4 (bs4 object model: parent/contents/sibling links, node kinds, att
 A_IR = 'A-ir (IR values are finite and acyclic; matcher contracts quantify over well-formed IR: ir_wf_list)'
 A_SMT = 'A-smt (z3 5.1 / cvc5 1.0.3 answer unsat only when true)'
 A_RE = 'A-re (CPython re accepts exactly the translated language of the patterns involved)'
-OPAQUE_NOTE = ('contracts assumed, not yet discharged by pyvc (their bodies are covered only by the bounded tier): '
+OPAQUE_NOTE = ('contracts assumed, not yet discharged by pyvc (their bodies are covered only by the bounded tier): normalize_value, split_namespace, '
                'get_tag_children, get_tag_descendants, get_children, match_defined, match_root, match_placeholder_shown, match_empty, '
-               'match_id, match_classes, match_attributes, match_lang, match_default, match_indeterminate, match_dir, '
+               'match_lang, match_default, match_indeterminate, match_dir, '
                'match_contains; termination of the mutual recursion through sub-lists rests on A-ir')
 
 ALL_HTML = ['basic', 'nows', 'multiroot', 'forms', 'ranges', 'lang', 'dir', 'iframe', 'text', 'attrs', 'identical']
